@@ -54,7 +54,8 @@ import tlslite.utils.codec as codec
 from tlslite.constants import (TLS_1_3_HRR, TLS_1_1_DOWNGRADE_SENTINEL,
                                TLS_1_2_DOWNGRADE_SENTINEL, ContentType,
                                HandshakeType, CipherSuite)
-from tlslite.errors import TLSAlert, TLSLocalAlert, TLSRemoteAlert
+from tlslite.errors import (TLSAlert, TLSLocalAlert, TLSRemoteAlert,
+                            BaseTLSException)
 
 
 def _ident(x):
@@ -68,12 +69,20 @@ def _ident(x):
 class RandomSource(object):
     """getRandomBytes(): fresh symbolic bytes per call"""
 
-    def __init__(self, I):
+    def __init__(self, I, concrete=False):
         self.I = I
         self.log = []
+        # concrete: fixed distinct patterns (used when an attacker rewrites
+        # the wire: symbolic randoms would be re-read as length fields)
+        self.concrete = concrete
 
     def __call__(self, n):
         n = int(n)
+        if self.concrete:
+            k = len(self.log)
+            r = [(37 * k + 11 * i + 0x41) & 0xff for i in range(n)]
+            self.log.append(r)
+            return newbuf(r)
         r = self.I.bytes(n, "rnd%d" % len(self.log))
         if n == 32:
             assume(NOT(seq_eq(list(r), list(TLS_1_3_HRR))))
@@ -123,7 +132,7 @@ class ModelKey(object):
         self.key_type = real.key_type
         self.signed = []
         self.verified = []
-        for a in ("curve_name", "public_key", "n", "e"):
+        for a in ("curve_name", "public_key", "private_key", "n", "e"):
             if hasattr(real, a):
                 setattr(self, a, getattr(real, a))
 
@@ -134,7 +143,12 @@ class ModelKey(object):
         return True
 
     def _sig(self, data, padding, hashAlg, saltLen):
-        tag = ("%s|%s|%s" % (padding, hashAlg, saltLen)).encode()
+        if self.key_type == "rsa":
+            tag = ("%s|%s|%s" % (padding, hashAlg, saltLen)).encode()
+        else:
+            # (EC)DSA signs the digest it is given: padding / hash name do
+            # not enter the signature
+            tag = b""
         return apply_uf("SIG" + self.kid, [len(tag)] + list(tag) + list(data),
                         self.SIGLEN)
 
@@ -186,6 +200,7 @@ class PairAEAD(object):
     tagLength = 16
     nonceLength = 12
     instances = None
+    sealed = None       # list of honest seals -> INT-CTXT assumption on open
 
     def __init__(self, key, name):
         self.key = list(key)
@@ -198,6 +213,9 @@ class PairAEAD(object):
                         [len(aad)] + list(aad) + list(pt), 16)
 
     def seal(self, nonce, plaintext, data):
+        if PairAEAD.sealed is not None:
+            PairAEAD.sealed.append((self.name, list(self.key), list(nonce),
+                                    list(data), list(plaintext)))
         return newbuf(list(plaintext)) + self._tag(nonce, plaintext, data)
 
     def open(self, nonce, ciphertext, data):
@@ -205,22 +223,55 @@ class PairAEAD(object):
             return None
         n = len(ciphertext) - 16
         pt, tag = ciphertext[:n], ciphertext[n:]
-        if not seq_eq(list(tag), list(self._tag(nonce, pt, data))):
+        good = seq_eq(list(tag), list(self._tag(nonce, pt, data)))
+        if PairAEAD.sealed is not None:
+            # ciphertext integrity: a tag verifies only for something that
+            # was sealed under the same key, nonce and associated data
+            in_w = OR([AND(seq_eq(self.key, w[1]), seq_eq(list(nonce), w[2]),
+                           seq_eq(list(data), w[3]), seq_eq(list(pt), w[4]))
+                       for w in PairAEAD.sealed
+                       if w[0] == self.name and len(w[1]) == len(self.key)
+                       and len(w[2]) == len(nonce) and len(w[3]) == len(data)
+                       and len(w[4]) == len(pt)])
+            assume(OR(in_w, NOT(good)))
+        if not good:
             return None
         return newbuf(list(pt))
 
 
 def _mk_aead(name):
     def create(key, implList=None):
-        return PairAEAD(key, name)
+        # the record layer looks at the cipher's name ("aes" in name ->
+        # explicit nonce in TLS 1.2), so the model objects carry real names
+        return PairAEAD(key, name % (8 * len(key)) if "%" in name else name)
     return create
+
+
+class HarnessError(BaseException):
+    """a bug in the harness itself (never attributed to the code under
+    check)"""
 
 
 class Wire(object):
     """temporal log of everything written by either endpoint"""
 
-    def __init__(self):
-        self.log = []       # (sender, bytes)
+    def __init__(self, mitm=None):
+        self.log = []       # (sender, bytes) as sent
+        self.mitm = mitm    # f(sender, offset_in_stream, bytes) -> bytes
+        self.sent = {"c": 0, "s": 0}
+        # offsets of record-header length bytes per direction (as sent)
+        self.len_offsets = {"c": set(), "s": set()}
+        self._next_hdr = {"c": 0, "s": 0}
+        self._orig = {"c": [], "s": []}
+
+    def track(self, who, d):
+        o = self._orig[who]
+        o += list(d)
+        while self._next_hdr[who] + 5 <= len(o):
+            h = self._next_hdr[who]
+            self.len_offsets[who].update((h + 3, h + 4))
+            self._next_hdr[who] = h + 5 + ((int(o[h + 3]) << 8) |
+                                           int(o[h + 4]))
 
 
 class PipeSock(object):
@@ -233,14 +284,22 @@ class PipeSock(object):
 
     def send(self, d):
         self.wire.log.append((self.who, list(d)))
+        n = len(d)
+        self.wire.track(self.who, d)
+        if self.wire.mitm is not None:
+            try:
+                d = self.wire.mitm(self.who, self.wire.sent[self.who], d)
+            except Exception as e:
+                import traceback
+                raise HarnessError(traceback.format_exc())
+        self.wire.sent[self.who] += n
         self.peer.inp += d
-        return len(d)
+        return n
 
     def sendall(self, d):
         self.send(d)
 
     def recv(self, n):
-        n = int(n)
         if len(self.inp) == 0:
             if self.peer.closed:
                 return newbuf()
@@ -302,10 +361,10 @@ def pair_stubs(rnd):
           (M, "getRandomBytes", rnd),
           (tc.TLSConnection, "_getKEX", staticmethod(ModelKEX)),
           (x509cc.X509CertChain, "getEndEntityPublicKey", _end_entity_key),
-          (rl, "createAESGCM", _mk_aead("gcm")),
-          (rl, "createCHACHA20", _mk_aead("chacha")),
-          (rl, "createAESCCM", _mk_aead("ccm")),
-          (rl, "createAESCCM_8", _mk_aead("ccm8")),
+          (rl, "createAESGCM", _mk_aead("aes%dgcm")),
+          (rl, "createCHACHA20", _mk_aead("chacha20-poly1305")),
+          (rl, "createAESCCM", _mk_aead("aes%dccm")),
+          (rl, "createAESCCM_8", _mk_aead("aes%dccm_8")),
           (hhelp, "ct_compare_digest", py_compare_digest)]
     if hasattr(kx, "hashlib"):
         st.append((kx, "hashlib", HASHLIB))
@@ -340,6 +399,7 @@ class Endpoint(object):
         self.gen = gen
         self.done = False
         self.error = None
+        self.crash = None
         self.blocked = False
 
     def step(self):
@@ -353,13 +413,18 @@ class Endpoint(object):
             except StopIteration:
                 self.done = True
                 return True
-            except TLSAlert as e:
+            except (BaseTLSException, socket.error) as e:
                 self.done = True
                 self.error = e
                 return True
-            except (socket.error, ) as e:
+            except (AssertionError, TypeError, ValueError, IndexError,
+                    KeyError, AttributeError, OverflowError,
+                    ZeroDivisionError, UnicodeError) as e:
+                # not a TLS error: the caller sees a raw Python exception
+                import traceback
                 self.done = True
                 self.error = e
+                self.crash = traceback.format_exc()
                 return True
             if r == 0:
                 # wants to read: inbox empty
@@ -371,9 +436,12 @@ class Endpoint(object):
             progressed = True
 
 
-def run_pair(client_gen_factory, server_gen_factory, max_rounds=40):
+def run_pair(client_gen_factory, server_gen_factory, max_rounds=40,
+             mitm=None):
     """returns (client_ep, server_ep, wire)"""
-    wire = Wire()
+    wire = Wire(mitm)
+    if mitm is not None and hasattr(mitm, "wire"):
+        mitm.wire[0] = wire
     cs, ss = PipeSock(wire, "c"), PipeSock(wire, "s")
     cs.peer, ss.peer = ss, cs
     cconn = tc.TLSConnection(cs)
@@ -527,3 +595,343 @@ class Schedule13(object):
     def key_iv(self, secret, klen, ivlen=12):
         return (hkdf_expand_label(self.alg, secret, b"key", [], klen),
                 hkdf_expand_label(self.alg, secret, b"iv", [], ivlen))
+
+
+# ---------------------------------------------------------------------------
+# TLS 1.3 scenario set-up shared by the obligations
+# ---------------------------------------------------------------------------
+
+SUITES13 = {"aes128": CipherSuite.TLS_AES_128_GCM_SHA256,
+            "aes256": CipherSuite.TLS_AES_256_GCM_SHA384,
+            "chacha": CipherSuite.TLS_CHACHA20_POLY1305_SHA256}
+CIPHER13 = {"aes128": ("aes128gcm", 16, "sha256", "aes128gcm"),
+            "aes256": ("aes256gcm", 32, "sha384", "aes256gcm"),
+            "chacha": ("chacha20-poly1305", 32, "sha256",
+                       "chacha20-poly1305")}
+
+
+class Scenario13(object):
+    """one TLS 1.3 handshake between two fresh endpoints"""
+
+    def __init__(self, I, rnd, auth, sname, intctxt=False):
+        from tlslite.handshakesettings import HandshakeSettings
+        from models.hello import RSA_CHAIN, RSA_KEY, EC_CHAIN, EC_KEY
+        self.I = I
+        rnd.I = I
+        rnd.log = []
+        ModelKEX.rnd = rnd
+        ModelKEX.log = []
+        PairAEAD.instances = []
+        PairAEAD.sealed = [] if intctxt else None
+        self.auth, self.sname = auth, sname
+        self.cname, self.klen, self.alg, self.tagname = CIPHER13[sname]
+        self.n = SIZES[self.alg][0]
+
+        def mk():
+            s = HandshakeSettings()
+            s.minVersion = s.maxVersion = (3, 4)
+            s.cipherNames = [self.cname]
+            s.keyShares = ["x25519"]
+            s.eccCurves = ["x25519"]
+            s.dhGroups = []
+            s.ticket_count = 0
+            return s
+        self.cset, self.sset = mk(), mk()
+        self.psk = None
+        if auth.startswith("psk"):
+            self.psk = I.bytes(self.n, "psk")
+            mode = "psk_dhe_ke" if auth == "psk_dhe" else "psk_ke"
+            for st in (self.cset, self.sset):
+                st.pskConfigs = [(bytearray(b"ident"),
+                                  newbuf(list(self.psk)), self.alg)]
+                st.psk_modes = [mode]
+        self.srv_chain, self.cli_chain = RSA_CHAIN, EC_CHAIN
+        self.skey = model_key(RSA_CHAIN, RSA_KEY, "srv")
+        self.ckey = model_key(EC_CHAIN, EC_KEY, "cli")
+        self.client_auth = auth == "cert+client"
+        self.client_kwargs = {}
+        self.server_kwargs = {}
+
+    def cgen(self, conn):
+        if self.client_auth:
+            return conn.handshakeClientCert(self.cli_chain, self.ckey,
+                                            settings=self.cset, async_=True,
+                                            **self.client_kwargs)
+        return conn.handshakeClientCert(settings=self.cset, async_=True,
+                                        **self.client_kwargs)
+
+    def sgen(self, conn):
+        if self.auth.startswith("psk"):
+            return conn.handshakeServerAsync(settings=self.sset,
+                                             **self.server_kwargs)
+        return conn.handshakeServerAsync(certChain=self.srv_chain,
+                                         privateKey=self.skey,
+                                         reqCert=self.client_auth,
+                                         settings=self.sset,
+                                         **self.server_kwargs)
+
+    def run(self, mitm=None):
+        self.cep, self.sep, self.wire = run_pair(self.cgen, self.sgen,
+                                                 mitm=mitm)
+        self.c, self.s = self.cep.conn, self.sep.conn
+        return self
+
+    def completed(self, ep):
+        return ep.done and ep.error is None
+
+    def both_completed(self):
+        return self.completed(self.cep) and self.completed(self.sep)
+
+    def shared(self):
+        if self.auth == "psk_ke":
+            return None
+        return ModelKEX.log[0][3]
+
+
+# ---------------------------------------------------------------------------
+# TLS 1.0 - 1.2
+# ---------------------------------------------------------------------------
+
+def p_hash(alg, secret, seed, length):
+    out = []
+    a = list(seed)
+    secret = list(secret)
+    while len(out) < length:
+        a = list(hmac_bytes(alg, secret, a))
+        out += list(hmac_bytes(alg, secret, a + list(seed)))
+    return out[:length]
+
+
+def prf(version, alg, secret, label, seed, length):
+    """RFC 2246 / 5246 section 5"""
+    secret, seed = list(secret), list(label) + list(seed)
+    if version >= (3, 3):
+        return p_hash(alg, secret, seed, length)
+    half = (len(secret) + 1) // 2
+    a = p_hash("md5", secret[:half], seed, length)
+    b = p_hash("sha1", secret[len(secret) - half:], seed, length)
+    return [x ^ y for x, y in zip(a, b)]
+
+
+class KxRandom(object):
+    """getRandomBytes for keyexchange.py: the 48-byte RSA premaster secret is
+    symbolic, finite-field / SRP exponents are fixed patterns (the real
+    modular arithmetic runs natively)"""
+
+    def __init__(self, rnd):
+        self.rnd = rnd
+        self.k = 0
+
+    def __call__(self, n):
+        n = int(n)
+        if n == 48:
+            return self.rnd(48)
+        self.k += 1
+        return bytearray((91 * self.k + 13 * i + 7) & 0xff for i in range(n))
+
+
+class DHSpy(object):
+    """records what FFDHKeyExchange.calc_shared_key returned"""
+    log = []
+
+    @staticmethod
+    def wrap(orig):
+        def calc_shared_key(self, private, peer_share, *a, **k):
+            r = orig(self, private, peer_share, *a, **k)
+            DHSpy.log.append(list(r))
+            return r
+        return calc_shared_key
+
+
+class ModelKEX12(ModelKEX):
+    """TLS <= 1.2 ECDHE through the same model (extra arguments ignored)"""
+
+    def calc_public_value(self, private, point_format=None):
+        return ModelKEX.calc_public_value(self, private)
+
+    def calc_shared_key(self, private, peer_share, valid_point_formats=None):
+        return ModelKEX.calc_shared_key(self, private, peer_share)
+
+
+def _rsa_encrypt(self, data):
+    self.encrypted.append(list(data))
+    return newbuf([0xEE] + list(data))
+
+
+def _rsa_decrypt(self, data):
+    data = list(data)
+    if len(data) < 1 or data[0] != 0xEE:
+        return None
+    return newbuf(data[1:])
+
+
+ModelKey.encrypt = _rsa_encrypt
+ModelKey.decrypt = _rsa_decrypt
+
+
+class PairCBC(object):
+    """CBC-mode object with identity encryption (integrity is the MAC's
+    job; confidentiality is not modelled)"""
+    isBlockCipher = True
+    isAEAD = False
+    implementation = "model"
+
+    def __init__(self, key, iv, name, block_size):
+        self.key, self.IV = list(key), list(iv)
+        self.name = name
+        self.block_size = block_size
+
+    def encrypt(self, data):
+        if len(data) % self.block_size:
+            raise AssertionError("model: CBC encrypt of partial block")
+        return newbuf(list(data))
+
+    def decrypt(self, data):
+        if len(data) % self.block_size:
+            raise AssertionError("model: CBC decrypt of partial block")
+        return newbuf(list(data))
+
+
+class PairStream(object):
+    isBlockCipher = False
+    isAEAD = False
+    implementation = "model"
+    name = "rc4"
+
+    def __init__(self, key):
+        self.key = list(key)
+
+    def encrypt(self, data):
+        return newbuf(list(data))
+
+    decrypt = encrypt
+
+
+def _create_hmac(k, digestmod=None):
+    from models.hashmodel import ModelHMAC
+    return ModelHMAC(k, None, digestmod)
+
+
+def pair12_stubs(rnd):
+    st = pair_stubs(rnd)
+    st += [(kx, "getRandomBytes", KxRandom(rnd)),
+           (kx, "ECDHKeyExchange", ModelKEX12),
+           (kx.FFDHKeyExchange, "calc_shared_key",
+            DHSpy.wrap(kx.FFDHKeyExchange.__dict__["calc_shared_key"])),
+           (rl, "hashlib", HASHLIB),
+           (rl, "createHMAC", _create_hmac),
+           (rl, "createAES",
+            lambda key, iv, impl=None: PairCBC(key, iv, "aes%d" %
+                                               (8 * len(key)), 16)),
+           (rl, "createTripleDES",
+            lambda key, iv, impl=None: PairCBC(key, iv, "3des", 8)),
+           (rl, "createRC4", lambda key, iv, impl=None: PairStream(key)),
+           (rl, "getRandomBytes", rnd)]
+    return st
+
+
+class WireView12(object):
+    """TLS <= 1.2: records of a direction are protected after its CCS"""
+
+    def __init__(self, wire):
+        self.records = wire_records(wire)
+        self.msgs = []
+        self.protected = []
+        self.ccs = {"c": False, "s": False}
+        frag = {"c": [], "s": []}
+        for who, ct, ver, payload in self.records:
+            if self.ccs[who]:
+                self.protected.append(dict(sender=who, type=ct, ver=ver,
+                                           payload=payload))
+                continue
+            if ct == ContentType.change_cipher_spec:
+                self.ccs[who] = True
+                continue
+            if ct == ContentType.handshake:
+                f = frag[who]
+                f += payload
+                while len(f) >= 4:
+                    n = (int(f[1]) << 16) | (int(f[2]) << 8) | int(f[3])
+                    if len(f) < 4 + n:
+                        break
+                    self.msgs.append((who, int(f[0]), f[:4 + n]))
+                    del f[:4 + n]
+
+    def first(self, who, hs_type):
+        for w, t, b in self.msgs:
+            if w == who and t == hs_type:
+                return b
+        return None
+
+
+class Scenario12(object):
+    """one TLS 1.0-1.2 handshake between two fresh endpoints"""
+
+    def __init__(self, I, rnd, version, kxname, cipher, mac="sha",
+                 ems=True, etm=True):
+        from tlslite.handshakesettings import HandshakeSettings
+        from models.hello import RSA_CHAIN, RSA_KEY, EC_CHAIN, EC_KEY
+        self.I = I
+        rnd.I = I
+        rnd.log = []
+        ModelKEX.rnd = rnd
+        ModelKEX.log = []
+        DHSpy.log = []
+        PairAEAD.instances = []
+        PairAEAD.sealed = None
+        self.version, self.kxname, self.cipher = version, kxname, cipher
+
+        def mk():
+            s = HandshakeSettings()
+            s.minVersion = s.maxVersion = version
+            s.cipherNames = [cipher]
+            s.macNames = [mac] if cipher not in (
+                "aes128gcm", "aes256gcm", "chacha20-poly1305",
+                "aes128ccm", "aes256ccm") else ["aead"]
+            if cipher in ("aes128gcm", "aes256gcm", "chacha20-poly1305"):
+                s.macNames = ["aead"]
+            s.keyExchangeNames = [kxname]
+            s.eccCurves = ["x25519", "secp256r1"]
+            s.keyShares = []
+            s.dhGroups = ["ffdhe2048"]
+            s.useExtendedMasterSecret = ems
+            s.useEncryptThenMAC = etm
+            s.ticket_count = 0
+            return s
+        self.cset, self.sset = mk(), mk()
+        if kxname == "ecdhe_ecdsa":
+            self.srv_chain = EC_CHAIN
+            self.skey = model_key(EC_CHAIN, EC_KEY, "srv")
+        else:
+            self.srv_chain = RSA_CHAIN
+            self.skey = model_key(RSA_CHAIN, RSA_KEY, "srv")
+        self.skey.encrypted = []
+        self.client_kwargs = {}
+        self.server_kwargs = {}
+
+    def cgen(self, conn):
+        return conn.handshakeClientCert(settings=self.cset, async_=True,
+                                        **self.client_kwargs)
+
+    def sgen(self, conn):
+        return conn.handshakeServerAsync(certChain=self.srv_chain,
+                                         privateKey=self.skey,
+                                         settings=self.sset,
+                                         **self.server_kwargs)
+
+    def run(self, mitm=None):
+        self.cep, self.sep, self.wire = run_pair(self.cgen, self.sgen,
+                                                 mitm=mitm)
+        self.c, self.s = self.cep.conn, self.sep.conn
+        return self
+
+    def both_completed(self):
+        return all(ep.done and ep.error is None
+                   for ep in (self.cep, self.sep))
+
+    def premaster(self):
+        if self.kxname == "rsa":
+            return self.skey.encrypted[0] if self.skey.encrypted else None
+        if self.kxname.startswith("ecdhe"):
+            return ModelKEX.log[0][3] if ModelKEX.log else None
+        return DHSpy.log[0] if DHSpy.log else None
